@@ -11,6 +11,7 @@ import (
 	"os"
 	"sort"
 	"strconv"
+	"sync"
 
 	"github.com/urfave/cli/v2"
 )
@@ -54,9 +55,57 @@ type env struct {
 	maxOut int
 	tr     *bufio.Writer // trace events (VERIF_TRACE_OUT)
 	trF    *os.File
+	mu     sync.Mutex
+}
+
+// parallelCases reads every case and runs fn on 12 goroutines, each with its own random source.
+// fn must use only the locked helpers of env (mismatch, sample, count).
+func (e *env) parallelCases(fn func(idx int, raw json.RawMessage, rng *rand.Rand) error) error {
+	var all []json.RawMessage
+	if err := e.eachCase(func(raw json.RawMessage) error { all = append(all, raw); return nil }); err != nil {
+		return err
+	}
+	next := make(chan int, len(all))
+	for i := range all {
+		next <- i
+	}
+	close(next)
+	var wg sync.WaitGroup
+	var firstErr error
+	for w := 0; w < 12; w++ {
+		wg.Add(1)
+		seed := e.seed*1000 + int64(w)
+		go func() {
+			defer wg.Done()
+			rng := rand.New(rand.NewSource(seed))
+			for i := range next {
+				if err := fn(i, all[i], rng); err != nil {
+					e.mu.Lock()
+					if firstErr == nil {
+						firstErr = err
+					}
+					e.mu.Unlock()
+					return
+				}
+			}
+		}()
+	}
+	wg.Wait()
+	return firstErr
+}
+
+// count adds to the summary counters under the lock
+func (e *env) count(cases, runs, nontrivial int) {
+	e.mu.Lock()
+	e.sum.Cases += cases
+	e.sum.Runs += runs
+	e.sum.Nontrivial += nontrivial
+	e.mu.Unlock()
 }
 
 func (e *env) mismatch(shape, site, what string, c interface{}) {
+	e.mu.Lock()
+	defer e.mu.Unlock()
 	e.sum.Mismatches++
 	if e.nOut >= e.maxOut || e.out == nil {
 		return
@@ -105,6 +154,8 @@ func (e *env) emitEv(ev string, fields map[string]interface{}) {
 }
 
 func (e *env) sample(v interface{}) {
+	e.mu.Lock()
+	defer e.mu.Unlock()
 	if len(e.sum.Samples) < 4 {
 		e.sum.Samples = append(e.sum.Samples, v)
 	}
